@@ -365,8 +365,77 @@ async fn filestore_hard_state() -> Result<(), String> {
     check(&st, &want, &members, "after restart".to_string())
 }
 
+/// C19 (s19_6): a history of committed sequence requests on a real SequenceDbManager actor; "restart" writes its table through a real
+/// SnapshotWriterActor, reads the file back with the real SnapshotReader and loads the records into a fresh actor.
+async fn sequence_table_history() -> Result<(), String> {
+    use crate::raft::filestore::model::SnapshotHeaderDto;
+    use crate::raft::filestore::raftapply::RaftApplyDataRequest;
+    use crate::raft::filestore::raftsnapshot::{SnapshotReader, SnapshotWriterActor, SnapshotWriterRequest};
+    use crate::sequence::model::{SequenceRaftReq, SequenceRaftResult};
+    let ops: Vec<serde_json::Value> = OPS.with(|o| o.borrow().clone());
+    let dir = tempfile::tempdir().unwrap();
+    let mut actor = SequenceDbManager::new().start();
+    let mut last_end: std::collections::HashMap<String, u64> = Default::default();
+    let mut snaps = 0;
+    for (k, op) in ops.iter().enumerate() {
+        let key = Arc::new(op["key"].as_str().unwrap_or("").to_owned());
+        match op["op"].as_str().unwrap_or("") {
+            "restart" => {
+                snaps += 1;
+                let path = Arc::new(dir.path().join(format!("seq_snapshot_{}", snaps)).to_string_lossy().into_owned());
+                let header = SnapshotHeaderDto { last_index: 1, last_term: 1, member: vec![1], member_after_consensus: vec![], node_addrs: Default::default() };
+                let writer = SnapshotWriterActor::new(path.clone(), header).start();
+                actor.send(RaftApplyDataRequest::BuildSnapshot(writer.clone())).await.map_err(|e| format!("MODEL: {}", e))?.map_err(|e| format!("building the snapshot of the sequence table fails: {}", e))?;
+                for _ in 0..2 {
+                    writer.send(SnapshotWriterRequest::Flush).await.map_err(|e| format!("MODEL: {}", e))?.map_err(|e| format!("MODEL: {}", e))?;
+                }
+                let fresh = SequenceDbManager::new().start();
+                let mut reader = SnapshotReader::init(&path).await.map_err(|e| format!("MODEL: reader: {}", e))?;
+                while let Some(rec) = reader.read_record().await.map_err(|e| format!("MODEL: read_record: {}", e))? {
+                    fresh.send(RaftApplyDataRequest::LoadSnapshotRecord(rec)).await.map_err(|e| format!("MODEL: {}", e))?.map_err(|e| format!("loading a snapshot record of the sequence table fails: {}", e))?;
+                }
+                let _ = fresh.send(RaftApplyDataRequest::LoadCompleted).await;
+                actor = fresh;
+            }
+            "set" => {
+                let _ = actor.send(SequenceRaftReq::SetId(key.clone(), op["value"].as_u64().unwrap_or(1))).await;
+                last_end.remove(key.as_str());
+            }
+            "remove" => {
+                let _ = actor.send(SequenceRaftReq::RemoveId(key.clone())).await;
+                last_end.remove(key.as_str());
+            }
+            name @ ("next" | "range") => {
+                let req = if name == "next" { SequenceRaftReq::NextId(key.clone()) } else { SequenceRaftReq::NextRange(key.clone(), op["step"].as_u64().unwrap_or(1)) };
+                let (start, len) = match actor.send(req).await {
+                    Ok(Ok(SequenceRaftResult::NextId(id))) => (id, 1),
+                    Ok(Ok(SequenceRaftResult::NextRange { start, len })) => (start, len),
+                    _ => return Err(format!("op {}: the request is not answered with an id / a range", k)),
+                };
+                if start == 0 {
+                    return Err(format!("op {}: id 0 is handed out", k));
+                }
+                if let Some(end) = last_end.get(key.as_str()) {
+                    if start < *end {
+                        return Err(format!(
+                            "op {}: key {}: the answer [{}, {}) starts below the end {} of the previous one: an id is issued twice (or ids go backwards)",
+                            k, key, start, start + len, end
+                        ));
+                    }
+                }
+                last_end.insert(key.to_string(), start + len);
+            }
+            other => return Err(format!("MODEL: unknown op {}", other)),
+        }
+    }
+    Ok(())
+}
+
 async fn scenario(name: &str) -> Result<(), String> {
     use tokio::io::AsyncWriteExt;
+    if name == "sequence_table_history" {
+        return sequence_table_history().await;
+    }
     if name == "filestore_hard_state" {
         return filestore_hard_state().await;
     }
